@@ -308,7 +308,7 @@ def check(ctx, case, figpath, rng=None):
 
 
 def plan(tier, seed):
-    per = 450 if tier == "quick" else 7000
+    per = 1500 if tier == "quick" else 12000
     return [{"n": per} for _ in range(16)]
 
 
